@@ -60,6 +60,32 @@ func genC02(t *rapid.T) c02Case {
 			I: rapid.IntRange(0, 63).Draw(t, "i"),
 		})
 	}
+	// Motifs: short lifecycle stories that random op soup rarely spells out. One
+	// in three histories gets one spliced in at a random position (everything
+	// around it stays random, and the story itself is drawn, not fixed).
+	if rapid.IntRange(0, 2).Draw(t, "motif?") == 0 {
+		m := rapid.IntRange(0, c.N-1).Draw(t, "motif-member")
+		r := rapid.IntRange(0, c.N-1).Draw(t, "motif-observer")
+		var story []c02Op
+		switch rapid.IntRange(0, 3).Draw(t, "motif") {
+		case 0: // goes down, observer is told, comes back (with or without a join intent), leaves, observer hears the leave
+			down := rapid.SampledFrom([]int{oCrash, oLeave}).Draw(t, "motif-down")
+			intent := rapid.SampledFrom([]int{0, 3}).Draw(t, "motif-intent")
+			story = []c02Op{{K: down, A: m}, {K: oNotify, A: r, B: m}, {K: oUp, A: m, B: r, I: intent}, {K: oNotify, A: r, B: m},
+				{K: oLeave, A: m}, {K: oDeliver, A: r, B: 3, I: 0}}
+		case 1: // force-leave of a member that is down, it returns through a peer, its join overtakes the notification
+			story = []c02Op{{K: oCrash, A: m}, {K: oNotify, A: r, B: m}, {K: oForceLeave, A: r, B: m}, {K: oUp, A: m, B: r},
+				{K: oDeliver, A: (r + 1) % c.N, B: 3, I: 0}, {K: oNotify, A: (r + 1) % c.N, B: m}, {K: oDeliver, A: (r + 1) % c.N, B: 3, I: 1}}
+		case 2: // leave heard by one, state sync to another, the other hears the leave late
+			story = []c02Op{{K: oLeave, A: m}, {K: oDeliver, A: r, B: 3, I: 0}, {K: oPushPull, A: r, B: (r + 1) % c.N},
+				{K: oDeliver, A: (r + 1) % c.N, B: 3, I: 0}, {K: oNotify, A: r, B: m}}
+		default: // leave, return, stale leave delivered after the return
+			story = []c02Op{{K: oLeave, A: m}, {K: oUp, A: m, B: r}, {K: oNotify, A: r, B: m}, {K: oNotify, A: r, B: m},
+				{K: oDeliver, A: r, B: 3, I: 1}, {K: oDeliver, A: r, B: 3, I: 0}}
+		}
+		at := rapid.IntRange(0, len(c.Ops)).Draw(t, "motif-at")
+		c.Ops = append(c.Ops[:at], append(story, c.Ops[at:]...)...)
+	}
 	return c
 }
 
@@ -530,6 +556,10 @@ func bodyC02(c c02Case, x *vkit.Ctx) {
 				continue
 			}
 			it := w.pool[op.I%len(w.pool)]
+			if op.B == 3 {
+				// one of the three newest intents (what gossip would carry next)
+				it = w.pool[len(w.pool)-1-(op.I%min(3, len(w.pool)))]
+			}
 			stBefore, known := status(a, it.node)
 			ltBefore, _ := a.n.Serf.VerifStatusLTime(it.node)
 			key := a.name + "|" + it.node
